@@ -231,11 +231,40 @@ fn history(rng: &mut Rng, rep: &mut Report, case_no: u64, len: usize) {
                 }
             }
             9 | 10 => {
-                // iter: shared borrows of exactly the registered & present types, first-registration order
-                desc = "iter()".to_string();
-                let want = expected_iter(&m);
+                // iter: shared borrows of exactly the registered & present types, first-registration
+                // order - consumed through `collect` or through one of the standard adaptors
+                let full = expected_iter(&m);
+                let adaptor = rng.below(8);
+                let k = rng.range(1, 4);
+                let want: Vec<(usize, u64)> = match adaptor {
+                    0 => full.iter().cloned().skip(k).collect(),
+                    1 => full.iter().cloned().step_by(k).collect(),
+                    2 => full.iter().cloned().nth(k).into_iter().collect(),
+                    3 => full.iter().cloned().last().into_iter().collect(),
+                    4 => full.iter().cloned().take(k).collect(),
+                    _ => full.clone(),
+                };
+                desc = match adaptor {
+                    0 => format!("iter().skip({})", k),
+                    1 => format!("iter().step_by({})", k),
+                    2 => format!("iter().nth({})", k),
+                    3 => "iter().last()".to_string(),
+                    4 => format!("iter().take({})", k),
+                    _ => "iter()".to_string(),
+                };
                 let r = catch_unwind(AssertUnwindSafe(|| {
-                    let items: Vec<_> = table.iter(&world).collect();
+                    let it = table.iter(&world);
+                    let items: Vec<_> = match adaptor {
+                        0 => it.skip(k).collect(),
+                        1 => it.step_by(k).collect(),
+                        2 => {
+                            let mut it = it;
+                            it.nth(k).into_iter().collect()
+                        }
+                        3 => it.last().into_iter().collect(),
+                        4 => it.take(k).collect(),
+                        _ => it.collect(),
+                    };
                     let got: Vec<(usize, u64)> = items.iter().map(|o| (o.tag() as usize, o.peek())).collect();
                     let mut addr_ok = true;
                     for o in &items {
@@ -272,7 +301,7 @@ fn history(rng: &mut Rng, rep: &mut Report, case_no: u64, len: usize) {
                 match r {
                     Ok((got, addr_ok, interplay)) => {
                         if got != want {
-                            fail!("iter_sequence", "iter() yielded (tag, value) {:?}, expected {:?} (registered {:?})", got, want, m.reg);
+                            fail!("iter_sequence", "{} yielded (tag, value) {:?}, expected {:?} (registered {:?}, present {:?})", desc, got, want, m.reg, full);
                         } else if !addr_ok {
                             fail!("wrong_object", "iter(): an item's address differs from its resource");
                         } else if !interplay.is_empty() {
@@ -283,10 +312,32 @@ fn history(rng: &mut Rng, rep: &mut Report, case_no: u64, len: usize) {
                 }
             }
             11 => {
-                desc = "iter_mut() + poke".to_string();
-                let want = expected_iter(&m);
+                let full = expected_iter(&m);
+                let adaptor = rng.below(6);
+                let k = rng.range(1, 3);
+                let want: Vec<(usize, u64)> = match adaptor {
+                    0 => full.iter().cloned().skip(k).collect(),
+                    1 => full.iter().cloned().step_by(k).collect(),
+                    2 => full.iter().cloned().nth(k).into_iter().collect(),
+                    _ => full.clone(),
+                };
+                desc = match adaptor {
+                    0 => format!("iter_mut().skip({}) + poke", k),
+                    1 => format!("iter_mut().step_by({}) + poke", k),
+                    2 => format!("iter_mut().nth({}) + poke", k),
+                    _ => "iter_mut() + poke".to_string(),
+                };
                 let r = catch_unwind(AssertUnwindSafe(|| {
-                    let mut items: Vec<_> = table.iter_mut(&world).collect();
+                    let it = table.iter_mut(&world);
+                    let mut items: Vec<_> = match adaptor {
+                        0 => it.skip(k).collect(),
+                        1 => it.step_by(k).collect(),
+                        2 => {
+                            let mut it = it;
+                            it.nth(k).into_iter().collect()
+                        }
+                        _ => it.collect(),
+                    };
                     let got: Vec<(usize, u64)> = items.iter().map(|o| (o.tag() as usize, o.peek())).collect();
                     let mut interplay = String::new();
                     if let Some(o) = items.first() {
@@ -304,7 +355,7 @@ fn history(rng: &mut Rng, rep: &mut Report, case_no: u64, len: usize) {
                 match r {
                     Ok((got, interplay)) => {
                         if got != want {
-                            fail!("iter_sequence", "iter_mut() yielded (tag, value) {:?}, expected {:?} (registered {:?})", got, want, m.reg);
+                            fail!("iter_sequence", "{} yielded (tag, value) {:?}, expected {:?} (registered {:?}, present {:?})", desc, got, want, m.reg, full);
                         } else if !interplay.is_empty() {
                             fail!("iter_borrow_interplay", "{}", interplay);
                         }
@@ -378,6 +429,60 @@ fn history(rng: &mut Rng, rep: &mut Report, case_no: u64, len: usize) {
     let _ = TypeId::of::<O0>();
 }
 
+impl BadObj for O0 {
+    fn hello(&self) -> u64 {
+        0
+    }
+}
+unsafe impl CastFrom<O0> for dyn BadObj {
+    fn cast(_t: *mut O0) -> *mut Self {
+        // a zero-sized value "somewhere else"
+        static mut ELSEWHERE: O0 = O0;
+        std::ptr::addr_of_mut!(ELSEWHERE)
+    }
+}
+
+/// the same for a zero-sized resource type (its box is dangling, the address still has to match)
+fn bad_cast_zst(rep: &mut Report, case_no: u64) {
+    rep.evaluations += 1;
+    for path in 0..4 {
+        let r = catch_unwind(AssertUnwindSafe(|| {
+            let mut t: MetaTable<dyn BadObj> = MetaTable::new();
+            t.register::<O0>();
+            let mut w = World::empty();
+            w.insert(O0);
+            match path {
+                0 => {
+                    let res = w.get_mut_raw(ResourceId::new::<O0>()).unwrap();
+                    t.get(&*res).map(|o| o.hello()).into_iter().collect::<Vec<u64>>()
+                }
+                1 => {
+                    let res = w.get_mut_raw(ResourceId::new::<O0>()).unwrap();
+                    t.get_mut(res).map(|o| o.hello()).into_iter().collect::<Vec<u64>>()
+                }
+                2 => t.iter(&w).map(|o| o.hello()).collect::<Vec<u64>>(),
+                _ => t.iter_mut(&w).map(|o| o.hello()).collect::<Vec<u64>>(),
+            }
+        }));
+        let what = ["get", "get_mut", "iter", "iter_mut"][path];
+        match r {
+            Err(p) => {
+                let msg = payload_str(&*p);
+                if !msg.contains("did not cast") {
+                    rep.violation("bad_cast_wrong_panic", &format!("zero-sized type, {}: panicked with an unrelated message: {}", what, msg), case_no, J::Null);
+                } else {
+                    rep.metric("bad_cast_zst_rejected", 1);
+                }
+            }
+            Ok(x) => {
+                if !x.is_empty() {
+                    rep.violation("bad_cast_accepted:zero_sized", &format!("a CastFrom for a zero-sized type that returns a different address was accepted by {} and yielded {:?}", what, x), case_no, J::Null);
+                }
+            }
+        }
+    }
+}
+
 /// a cast implementation that changes the address is rejected by a panic
 fn bad_cast(rep: &mut Report, case_no: u64) {
     rep.evaluations += 1;
@@ -405,7 +510,8 @@ fn bad_cast(rep: &mut Report, case_no: u64) {
 }
 
 fn bad_cast_case(rep: &mut Report) {
-    bad_cast(rep, 49)
+    bad_cast(rep, 49);
+    bad_cast_zst(rep, 49);
 }
 
 pub fn run(args: &Args) -> i32 {
